@@ -206,6 +206,15 @@ def install_encode_hook(ctx, hooks):
         if snap is None or tree._seed_node is None:
             return
         flags = dict(kw)
+        # documented return value: the stored list, or None when storage is suppressed
+        ctx.ev("encode-return-checked")
+        if flags.get("suppress_storage"):
+            if result is not None or tree.bipartition_encoding is not None:
+                ctx.violation("encode|suppress_storage-still-stores-or-returns-a-list", "documented: no list is created",
+                              {"flags": flags})
+        elif result is None or result is not tree.bipartition_encoding:
+            ctx.violation("encode|return-value-is-not-the-stored-encoding", "documented: the stored list is returned",
+                          {"flags": flags, "returned": type(result).__name__})
         check_encoding(ctx, tree, tree.taxon_namespace, bool(tree._is_rooted), "encode", snap, flags)
     hooks.install(dendropy.Tree, "encode_bipartitions", pre=pre, post=post)
 
@@ -216,7 +225,16 @@ def split_set(tree, **flags):
 
 FLAGSETS = ({}, {"suppress_unifurcations": False}, {"collapse_unrooted_basal_bifurcation": False},
             {"suppress_unifurcations": False, "collapse_unrooted_basal_bifurcation": False},
-            {"is_bipartitions_mutable": True})
+            {"is_bipartitions_mutable": True},
+            # the edges must carry the full encoding also when no list is asked for (seeded change C01c)
+            {"suppress_storage": True}, {"suppress_storage": True, "is_bipartitions_mutable": True},
+            {"suppress_storage": True, "suppress_unifurcations": False})
+
+
+def edge_split_set(tree):
+    """split set read off the edges themselves (raw child-list walk), whether or not a list was stored"""
+    spec, nodes = bridge.extract(tree, with_nodes=True)
+    return frozenset(nd._edge.bipartition.split_bitmask for _s, nd in nodes)
 
 
 def rebuild_check(ctx, tree, spec, ns, rooted, rng, labels):
@@ -289,7 +307,12 @@ def run_case(case, ctx):
                     t = run_one_tree(ctx, v, case["rooted"], case["ns"], random.Random(1), flags,
                                      do_rebuild=(flags == {}))
                     if t is not None:
-                        sets.append((frozenset(b.split_bitmask for b in t.bipartition_encoding), v, flags))
+                        if t.bipartition_encoding is not None:
+                            stored = frozenset(b.split_bitmask for b in t.bipartition_encoding)
+                            if stored != edge_split_set(t):
+                                ctx.violation("encode|stored-list-differs-from-the-edges'-splits",
+                                              "bipartition_encoding and the edges disagree", {"tree": ref.to_newick(v), "flags": flags})
+                        sets.append((edge_split_set(t), v, flags))
             # all re-drawings of one topology on the same taxon->bit map: equal split sets
             if case["rooted"]:
                 groups = {}
